@@ -228,10 +228,16 @@ func (pool *BlockPool) AddBlock(peerID string, block *types.Block, blockSize int
 	if requester == nil {
 		return
 	}
+	// The answer of a peer that is not (or no longer) in the pool is dropped: removePeer()
+	// redoes the requesters of a removed peer asynchronously, so for a moment a requester
+	// can still name it.
+	peer := pool.peers[peerID]
+	if peer == nil {
+		return
+	}
 
 	if requester.setBlock(block, peerID) {
 		pool.numPending--
-		peer := pool.peers[peerID]
 		peer.decrPending(blockSize)
 	} else {
 		// Bad peer?
@@ -419,7 +425,7 @@ func newBPRequester(pool *BlockPool, height int64) *bpRequester {
 	bpr := &bpRequester{
 		pool:       pool,
 		height:     height,
-		gotBlockCh: make(chan struct{}),
+		gotBlockCh: make(chan struct{}, 1),
 		redoCh:     make(chan struct{}),
 
 		peerID: "",
@@ -445,7 +451,12 @@ func (bpr *bpRequester) setBlock(block *types.Block, peerID string) bool {
 	bpr.block = block
 	bpr.mtx.Unlock()
 
-	bpr.gotBlockCh <- struct{}{}
+	// Never block here: the caller holds the pool's mutex, and the request routine may be
+	// on its way to pick another peer (redo), for which it needs that mutex.
+	select {
+	case bpr.gotBlockCh <- struct{}{}:
+	default:
+	}
 	return true
 }
 
